@@ -252,7 +252,10 @@ def check_wait_counter(ctx, P):
     fns = fdl_fns(P)
     n = 0
     for f in fns:
-        if f.kind == "closure" or not any(True for _ in call_sites(f, lambda c: callee_is(c, "fdl::active::State::transition_check_token_pass"))):
+        # wherever the wait counter is read or written (the token-pass handler or a helper it was split into)
+        has = any("a" in s and mk_place(s["a"])[1] and "rotation_count" in str(s["a"]) for b, i, s in stmts(f)) or \
+            any(True for _ in call_sites(f, lambda c: callee_is(c, "next_gap_poll")))
+        if not has:
             continue
         g = GuardAnalysis(f, P)
         tb = g.tb
